@@ -130,6 +130,12 @@ def view_schema(package, byte_order):
     # m5: only variable-length members, no fields at all
     m.append(G("novals", 5, fields=[], groups=[G("g", 1, fields=[F("k", 1, "cconst")], groups=[G("h", 2, fields=[F("z", 1, "uint8")])])],
                data=[D("d", 3)]))
+    # m6: a group whose entries hold only a constant field (nothing on the wire
+    # but the block), explicit blockLength, followed by data
+    m.append(G("constgrp", 6, fields=[F("x", 1, "uint8")],
+               groups=[G("cg", 10, fields=[F("k", 1, "cconst")], blockLength=2),
+                       G("cg0", 11, fields=[F("k", 1, "cconst")])],
+               data=[D("d", 20, "varStr8")]))
     return S
 
 
